@@ -115,6 +115,10 @@ func decodeInt64(src string, pos int) (ret int, v int64, err error) {
 	if sp >= se {
 		return -int(types.ERR_EOF), 0, nil
 	}
+	// JSON numbers have no leading zeros ("01" is malformed)
+	if sp+1 < se && *(*byte)(unsafe.Pointer(sp)) == '0' && isDigit(*(*byte)(unsafe.Pointer(sp + 1))) {
+		return -int(types.ERR_INVALID_CHAR), 0, nil
+	}
 
 	for ; sp < se; sp += uintptr(1) {
 		if !isDigit(*(*byte)(unsafe.Pointer(sp))) {
